@@ -3,6 +3,8 @@ import Proofs.C08
 import Proofs.C08Utf8
 import Proofs.C08Methods
 import Proofs.C08Spec
+import Proofs.C08Plain
+import Proofs.C08Order
 /-!
   C08 — a decode value is indistinguishable from its JSON value in read-only jq.
 
@@ -25,10 +27,18 @@ import Proofs.C08Spec
   Hypotheses: NamesDistinct (decode.D.AddChild refuses duplicate field names). Strings are arbitrary
   byte strings: Go's `[]rune` / `string(runes)` round trip is proved (Proofs/C08Utf8.lean:
   `decode1_encodeRune`, `chunks_encodeRunes`), no validity assumption.
-  Query level (stretch): only `indistinguishable_partial` is proved; the full
-  `∀ q v, DocOK q → eval q (wrap v) ≈ eval q (toValue v)` by induction on q is NOT proved — it is
-  checked by the correspondence run (the driver evaluates the specification mode of the model, which
-  is the plain semantics on `tovalue` + exactly D1-D4, against the real interpreter on every case).
+  Query level, by induction over the 30-construct mini-jq (arbitrary nesting), for all values:
+    `indistinguishable_spec`  model of the code = executable specification + the recorded deviations,
+                              for EVERY evaluation value (slices included);
+    `spec_agrees_tovalue`     specification (plain key lookup) on a Good value = plain gojq on its
+                              tovalue, output by output (every builtin commutes with tovalue);
+    `indistinguishable`       the composition: real dispatch on a decode tree vs plain gojq on its
+                              tovalue, under exactly: DocOK q (D2), GoodDV d (D1 members sorted, D4 raw
+                              bits valid UTF-8, no decoded -2^63), NoNullKey (D3), NoQuirk (known findings);
+    `indistinguishable_up_to_member_order` + `tovalue_ignores_member_order`   (D1) in general: any tree,
+                              after putting the members of every struct in sorted order;
+    `member_order_witness`, `null_key_witness`, `indistinguishable_spec_needs_known`   each hypothesis is needed.
+  No case of the induction failed; nothing new about fq came out of it.
 -/
 namespace Props.C08
 open FqModel FqModel.JQValue Proofs.C08
@@ -285,28 +295,88 @@ theorem indistinguishable_partial (ff : UInt64 → Option Bytes) (d : DV) (q : Q
   · simp only [Q.eval, wrap, tojson_agree ff d h4]
   · simp only [Q.eval, wrap, tostring_agree ff d h4]
 
-/-- Query level, code against specification: for every slice-free query of the mini-jq
-    (identity, .k, .[i], .[], .., pipe, comma, literals, [..], {(k):v}, keys, has, length, type, paths,
-    to_entries, tojson, tostring, tonumber, ==, <, sort, +, -, if, //, try — arbitrarily nested) and
-    EVERY evaluation value `v` (decode values of any shape, plain values, containers holding decode
-    values): evaluating with the model of the code (`Mode.real`: dispatch to the JQValue* methods)
-    and with the executable specification (plain gojq semantics on the view of a decode value = its
-    tovalue one level deep, with exactly D1-D4) extended by exactly the recorded deviations
-    (`Mode.known`: string-index-out-of-range, object-key-jqvalue, gojq-minint-length) gives the same
-    outputs in the same order and ends the same way (no error / error / Go panic).
-    This is the induction over the query that DESIGN §10 calls `indistinguishable`, in the form
-    "code = specification + known findings". NOT proved: that the specification mode on `wrap d`
-    relates to the plain evaluation on `toValue d` modulo D1-D4 for whole queries (it does by
-    construction for one step: the method-level theorems above); `.[a:b]` is separate (`slice_spec`). -/
-theorem indistinguishable_spec (ff : UInt64 → Option Bytes) (q : Q) (h : NoSlice q) (v : Val) :
+/-- Query level, code against specification: for every query of the mini-jq (identity, .k, .[i],
+    .[a:b], .[], .., pipe, comma, literals, [..], {(k):v}, keys, has, length, type, paths, to_entries,
+    tojson, tostring, tonumber, ==, <, sort, +, -, if, //, try — arbitrarily nested) and EVERY
+    evaluation value `v` (decode values of any shape, plain values, containers holding decode values):
+    evaluating with the model of the code (`Mode.real`: dispatch to the JQValue* methods) and with the
+    executable specification (plain gojq semantics on the view of a decode value = its tovalue one
+    level deep, with exactly D1-D4) extended by exactly the recorded deviations (`Mode.known`) gives
+    the same outputs in the same order and ends the same way (no error / error / Go panic). -/
+theorem indistinguishable_spec (ff : UInt64 → Option Bytes) (q : Q) (v : Val) :
     ResEq (q.eval Mode.real ff v) (q.eval Mode.known ff v) :=
-  eval_rk ff q h v
+  eval_rk ff q v
 
-/-- `.[a:b]`, code against specification, for every evaluation value: equal up to `normG` (the slice
-    of a decoded JSON array is a bare gojqx.Array in the code, a plain array in the specification) -/
+/-- `.[a:b]`, code against specification, for every evaluation value -/
 theorem slice_spec (v : Val) (s e : Option Int) :
-    OutEq (mapOut normG (funcSlice Mode.real v s e)) (mapOut normG (funcSlice Mode.known v s e)) :=
+    OutEq (funcSlice Mode.real v s e) (funcSlice Mode.known v s e) :=
   slice_rk v s e
+
+/-- Query level, specification against plain gojq on tovalue: for every query of the mini-jq that
+    names no `_` extra key (D2: `DocOK`) and every evaluation value that is `Good` — struct members in
+    sorted order, so (D1) does not apply; raw bits that tovalue keeps are valid UTF-8, so (D4) does not
+    apply; no decoded -2^63 — the specification with plain key lookup (`Mode.strict`: (D3) switched
+    off) and plain gojq on the tovalue of the input (`plainify v`) correspond output by output: the
+    plain run yields exactly the tovalue of each output of the specification run, in the same order,
+    and both end the same way. By induction on the query; every builtin commutes with tovalue. -/
+theorem spec_agrees_tovalue (ff : UInt64 → Option Bytes) (q : Q) (hq : DocOK q) (v : Val) (hv : Good v) :
+    ResSim (q.eval Mode.strict ff v) (q.eval Mode.real ff (plainify v)) :=
+  eval_sim ff q hq v hv
+
+/-- THE PROPERTY, query level: for every query `q` of the mini-jq and every decode tree `d`
+    (unbounded size and depth), if
+      * `q` names no `_` extra key                                              (D2, syntactic `DocOK`),
+      * `d`'s structs list their members in sorted order and its raw bits are valid UTF-8
+                                                                                 (D1, D4: `GoodDV d`),
+      * no string-key lookup on a non-object decode value shows in the evaluation (D3: `NoNullKey`),
+      * none of the recorded deviations shows in the evaluation                  (`NoQuirk`),
+    then the real dispatch on the decode value and plain gojq on `d | tovalue` agree: the plain run
+    yields exactly the tovalue of each output of the decode-value run, in the same order, and both end
+    the same way (no error / error / Go panic).
+    `NoNullKey` and `NoQuirk` are stated semantically — "switching the exception / the deviations off
+    does not change this evaluation" — and are decided per case by the driver; the four hypotheses
+    are exactly the four documented differences plus the known findings, nothing else is assumed.
+    For (D1) in general see `indistinguishable_up_to_member_order`. -/
+theorem indistinguishable (ff : UInt64 → Option Bytes) (q : Q) (d : DV)
+    (hdoc : DocOK q) (hgood : GoodDV d) (hnull : NoNullKey ff q (wrap d)) (hquirk : NoQuirk ff q (wrap d)) :
+    ResSim (q.eval Mode.real ff (wrap d)) (q.eval Mode.real ff (Val.ofJV d.toValue)) := by
+  have h1 : ResEq (q.eval Mode.real ff (wrap d)) (q.eval Mode.strict ff (wrap d)) :=
+    ((eval_rk ff q (wrap d)).trans hquirk).trans hnull
+  exact ResSim_of_ResEq h1 (eval_sim ff q hdoc (wrap d) hgood)
+
+/-- (D1), compositional form: `tovalue` does not see the order of struct members — -/
+theorem tovalue_ignores_member_order (d : DV) : (DV.sortFields d).toValue = d.toValue :=
+  toValue_sortFields d
+
+/-- — and a decode tree differs from its tovalue ONLY in that order (apart from D2-D4 and the known
+    findings): for EVERY decode tree `d` whose scalars are `ScalarsOK` (D4; no member-order condition,
+    no distinctness condition), the tree with the members of every struct put in sorted order is
+    indistinguishable from `d | tovalue` by every query of the mini-jq, in the exact sense of
+    `indistinguishable`. (A permutation relation on outputs is not compositional — positions are
+    observable, see `member_order_witness` — so (D1) is stated as "equal after reordering".) -/
+theorem indistinguishable_up_to_member_order (ff : UInt64 → Option Bytes) (q : Q) (d : DV)
+    (hdoc : DocOK q) (hs : ScalarsOK d)
+    (hnull : NoNullKey ff q (wrap (DV.sortFields d))) (hquirk : NoQuirk ff q (wrap (DV.sortFields d))) :
+    ResSim (q.eval Mode.real ff (wrap (DV.sortFields d))) (q.eval Mode.real ff (Val.ofJV d.toValue)) := by
+  rw [← tovalue_ignores_member_order d]
+  exact indistinguishable ff q (DV.sortFields d) hdoc (good_sortFields d hs) hnull hquirk
+
+/-- (D1) is observable through positions, which is why `indistinguishable` asks for sorted members:
+    on the struct {b: 1, a: 2} the query `[.[]] | .[0]` yields the decoded 1 (input order), on its
+    tovalue 2 (sorted order) -/
+theorem member_order_witness :
+    let d : DV := .struct [([98], .scalar (.uint 1) none false), ([97], .scalar (.uint 2) none false)]
+    let q : Q := .pipe (.arrC .iter) (.index 0)
+    (q.eval Mode.real (fun _ => none) (wrap d)).outs = [.dv (.scalar (.uint 1) none false)] ∧
+    (q.eval Mode.real (fun _ => none) (Val.ofJV d.toValue)).outs = [.int 2] := by
+  constructor <;> rfl
+
+/-- (D3) is observable: `(.a)?` on a decoded number yields null, on its tovalue nothing — which is
+    why `indistinguishable` asks for `NoNullKey` -/
+theorem null_key_witness :
+    ((Q.try (.field [97])).eval Mode.real (fun _ => none) (wrap (.scalar (.uint 1) none false))).outs = [.null] ∧
+    ((Q.try (.field [97])).eval Mode.real (fun _ => none) (Val.ofJV (DV.toValue (.scalar (.uint 1) none false)))).outs = [] := by
+  constructor <;> rfl
 
 /-- without the recorded deviations the statement is false: the specification proper differs from
     the code exactly there (an index outside a decoded string) -/
@@ -334,8 +404,21 @@ example :
   · simp only [RawOKDeep, RawOKFields, RawOKList, svRawOK, scalarValue, actualSV, and_true, true_and]
     decide
 
-example : NoSlice (.pipe (.arrC (.pipe .recurse (.try (.field [97])))) (.bin .add .sort (.objC .id .length))) := by
-  simp [NoSlice]
+example : DocOK (.pipe (.arrC (.pipe .recurse (.try (.field [97])))) (.bin .add .sort (.objC (.slice (some 1) none) (.has (.str [98]))))) := by
+  simp only [DocOK, NotExt, true_and, and_true]
+  refine ⟨by decide, ?_⟩
+  intro k hk; cases hk; decide
+
+/-- the hypotheses of `indistinguishable` hold for a non-trivial tree and query:
+    `{a: -3, b: [7 (symbol "x"), raw "AB"]} | [.. | length?] | sort` -/
+example :
+    let d : DV := .struct [([97], .scalar (.sint (-3)) none false),
+      ([98], .array [.scalar (.uint 7) (some (.str [120])) false, .scalar (.raw [65, 66]) none false])]
+    let q : Q := .pipe (.arrC (.pipe .recurse (.try .length))) .sort
+    DocOK q ∧ GoodDV d ∧ NoNullKey (fun _ => none) q (wrap d) ∧ NoQuirk (fun _ => none) q (wrap d) := by
+  refine ⟨by simp [DocOK], ?_, ⟨rfl, trivial⟩, ⟨rfl, trivial⟩⟩
+  simp only [GoodDV, GoodFields, GoodDVs, KeysSorted, svRawOK, svNotMinInt, scalarValue, actualSV, and_true, true_and]
+  decide
 
 example : NotExt (.str [97]) ∧ isExtKey [97] = false := by
   refine ⟨?_, by decide⟩
